@@ -128,10 +128,24 @@ func (x *c03Env) ruleF() {
 		}
 		return s.Obj().Name()
 	}
+	// constName: which of the API constants of the field's type has the value of e (values, not spellings)
 	constName := func(e ast.Expr) string {
-		if id, ok := stripConv(info, e).(*ast.Ident); ok {
-			if k, ok := info.ObjectOf(id).(*types.Const); ok && k.Pkg() == x.pk.Types {
-				return k.Name()
+		v, ok := constInt(info, stripConv(info, e))
+		if !ok {
+			v, ok = constInt(info, e)
+		}
+		if !ok {
+			return ""
+		}
+		tv := info.TypeOf(e)
+		for _, n := range []string{"ModShift", "ModAlt", "ModCtrl", "EventPress", "EventRelease", "EventMotion"} {
+			k, isC := x.pk.Types.Scope().Lookup(n).(*types.Const)
+			if !isC {
+				continue
+			}
+			kv, _ := constToInt(types.TypeAndValue{Value: k.Val()})
+			if kv == v && (tv == nil || types.Identical(tv, k.Type()) || types.AssignableTo(k.Type(), tv)) {
+				return n
 			}
 		}
 		return ""
